@@ -404,16 +404,22 @@ impl<'a, F: Spill> ConvergenceMap<'a, F> {
             let mut ri = 0;
             while ri < self.storage.root.len() {
                 let node = self.storage.root[ri];
-                if location.max_cut >= node.min_max_cut && location.max_cut <= node.max_max_cut {
+                if location.max_cut >= node.min_max_cut
+                    && location.max_cut <= node.max_max_cut
+                    && self.read_block_from_disk(ri)?.find(location).is_some()
+                {
                     // Load block into memory (removes root[ri] via swap_remove).
                     let bi = self.load_block_from_disk(ri)?;
-                    if let Some(ei) = self.storage.blocks[bi].find(location) {
-                        return self.consume_entry(bi, ei);
-                    }
-                    // Don't increment ri — swap_remove moved a new entry here.
-                } else {
-                    ri = ri.checked_add(1).assume("ri must not overflow")?;
+                    let ei = self.storage.blocks[bi]
+                        .find(location)
+                        .assume("location was found in this block on disk")?;
+                    return self.consume_entry(bi, ei);
                 }
+                // Only swap a block into memory once it is known to hold the
+                // location: loading evicts another block to the end of the root
+                // index, so loading every candidate whose range merely overlaps
+                // could cycle the same blocks between memory and disk forever.
+                ri = ri.checked_add(1).assume("ri must not overflow")?;
             }
         }
 
